@@ -10,7 +10,8 @@
   * `dateutil.relativedelta` (sign–magnitude month carry, day clipped to the month's end), the `rrule`
     counting used by DATEDIF and the two `yearfrac` conventions used by YEARFRAC are hand models of the
     part of the library that is used.
-  * The WEEKDAY tuples are read from `Gen.C18Date` (extracted from the source of date.py).
+  * The WEEKDAY tuples are read from `Gen.C18Date` (observed by probing the running WEEKDAY on a
+    Monday … Sunday for every candidate return type: behaviour, not source text).
   * The model mirrors the code after the repairs D44 (serial 59), D46/D56 (DATE bounds), D47 (DATEDIF M/Y by
     field arithmetic), D48 (`year = int(year)`), D1801 (EDATE/EOMONTH epoch check `<`), D1802 (offset rule
     `value >= 60`) and D1805 (`try … except (OverflowError, ValueError)` → #NUM!).  D45 (the time of day in
